@@ -119,7 +119,11 @@ def evaluate_source_only(tag, progs, timeout=600):
         outs, attrs = coq_strs(p.outs), coq_strs(p.attrs)
         items.append(('r%d' % i, '(py_sim g_dom src%d stp%d %s %s, py_sim g_all src%d stp%d %s %s)' % (i, i, outs, attrs, i, i, outs, attrs)))
     out = common.coq_eval(tag, '\n'.join(body), items, timeout=timeout)
-    return {i: {'dom': out['r%d' % i][0], 'py': out['r%d' % i][1]} for i in range(len(progs))}
+    res = {}
+    for i in range(len(progs)):
+        a, b, py = out['r%d' % i]                 # Coq prints ((a, b), (c, d)) as (a, b, (c, d))
+        res[i] = {'dom': (a, b), 'py': py}
+    return res
 
 
 def first_diff(a, b, start=0, limit=None):
